@@ -25,6 +25,7 @@ func runC11(c *Ctx) {
 	c11Rand(c)
 	c11Max(c)
 	c11WeightArith(c)
+	c11WeightedFlag(c, "C11.weighted-flag")
 	// the per-listener answer limit reaches the sampler only if every listener's chain ends at its own max-answer handler
 	c.importRules(runC20, "C20", map[string]string{"samemux": "samemux"})
 	// a weighted answer served from the cache is one sample replayed: the cache may hold it only under the explicit WRS timeout
